@@ -57,6 +57,13 @@ def run(ctx):
                 mcases.append((11, [r["grammar"], c["graph_nodes"], labels, [ord(ch) for ch in w], c["rx"],
                                     wsl, start, 0, 1, 0]))
                 meta.append(("forest_ok", r, c))
+    coll = glrcases.gss_identity_check()
+    st["gss_id_pairs_checked"] = 0 if coll is None else 41 * 61
+    if coll:
+        ctx.violation("stack nodes of different (frontier, state) carry the same id %s: links of different stack "
+                      "paths are keyed alike and packed into one (trees that do not spell the input, lost paths) once "
+                      "an input is long enough to reach both" % coll[0][2],
+                      {"colliding_pairs": coll[:6], "collisions": len(coll)}, no_input=True, key="gss-id")
     outs = common.model_run(mcases)
     nx, xok, xlog = common.coq_crosscheck("C01", mcases, outs, ctx.rng, sample=30 if quick else 100)
     if not xok:
